@@ -6,7 +6,7 @@ props = [json.loads(l) for l in open(os.path.join(V, 'properties.jsonl'))]
 MODELS = 'callee models of DESIGN 2.3 (std plumbing exact; regex: interpreted for the simple subset and validated against the regex crate, uninterpreted otherwise; aho-corasick: occurrence contract; number rendering: injective uninterpreted; tracing disabled)'
 C = {
  'C01': ('translation_validation', '3/C01',
-    'symbolic execution of rustc MIR (solve_expression and callees) on the original and on every natively optimised tree; z3 equivalence query over a symbolic document; native replay of counterexamples',
+    'symbolic execution of rustc MIR (solve_expression and callees) on the original and on every natively optimised tree; z3 equivalence query over a symbolic document; native replay of counterexamples; concrete Unicode case-fold probes for trees that hold a regex',
     'For every template rule x 16 switch combinations x every distinct optimiser output collected, z3 decides matches(original) != matches(optimised) for all documents within the bounds; unsat = same verdict. Exhaustive in document contents within the bound, enumerated in rules.',
     MODELS + '; rules are templates; optimiser outputs collected by repeated native calls'),
  'C02': ('translation_validation', '3/C02',
@@ -14,7 +14,7 @@ C = {
     'For every template rule z3 decides matches(rule, doc) != reference(rule text, doc) for all documents within the bounds (absent fields, every value kind, arrays, nested objects).',
     MODELS + '; reference semantics written from README/rustdoc/property statements, pinned to the tree on corners they leave open (DESIGN C02)'),
  'C03': ('model_checking', '3/C03',
-    'panic reachability by symbolic execution of rustc MIR of the solver on every accepted template rule and optimiser output (z3), native catch_unwind for optimise() / validate() on every template and on the engine-limit rules under all 16 switch combinations, parser MIR over symbolic token vectors for operand kinds',
+    'panic reachability by symbolic execution of rustc MIR of the solver on every accepted template rule and optimiser output (z3), native catch_unwind for optimise() / validate() on every template and on the engine-limit rules under all 16 switch combinations, parser MIR over symbolic token vectors for operand kinds; the loaded trees of string-predicate templates also on UTF-8 documents; Object::find MIR on symbolic keys (both trait copies)',
     'For every accepted template rule and every optimiser output, z3 decides whether any panic path of the real solver MIR is feasible for any document within the bounds; non-predicate operands must be rejected by the real parser MIR for all token vectors within the bound.',
     MODELS + '; panics inside third-party engines are outside the claim'),
  'C04': ('model_checking', '3/C04',
@@ -30,23 +30,23 @@ C = {
     'Every connective form and arity 1..4 (6 thorough): z3 proves the result term of the real MIR equals the truth table for all operand vectors in {T,F,M}^k and all u64 thresholds, with coverage and vacuity witnesses.',
     'operands opaque (fresh SolverResult); HashMap::get exact-lookup model; tracing disabled'),
  'C07': ('model_checking', '3/C07',
-    'symbolic execution of rustc MIR of search / slow_aho with symbolic needles, member kinds and haystacks under the aho-corasick contract model (validated against the crate); into_identifier MIR vs the documented pattern table; list vs members on real solver MIR',
+    'symbolic execution of rustc MIR of search / slow_aho with symbolic needles, member kinds and haystacks under the aho-corasick contract model (validated against the crate); into_identifier MIR vs the documented pattern table; list vs members on real solver MIR; i + symbolic UTF-8 text through into_identifier: the needle is the text up to ASCII case',
     'All needles/haystacks within the byte bounds, all 4 relations x case flag, member kinds symbolic, three occurrence orders; every path of into_identifier on ASCII strings within the bound agrees with the pattern table.',
     'aho-corasick by contract; regex trusted; to_lowercase ASCII; std string predicates by documented meaning'),
  'C08': ('translation_validation', '3/C08',
-    'symbolic execution of rustc MIR on the quantified rule and on each member as a one-member rule; z3 decides truth(quantified) <=> quantifier(count of true members)',
+    'symbolic execution of rustc MIR on the quantified rule and on each member as a one-member rule; z3 decides truth(quantified) <=> quantifier(count of true members); concrete wide-list unit (65 / 70 / 130 members, three rotations) against the member count',
     'All member lists of the template families x thresholds 0..len+1 x all scalar documents within the bounds, for key quantifiers and identifier quantifiers.',
     MODELS + '; members = templates'),
  'C09': ('model_checking', '3/C09',
-    'symbolic execution of rustc MIR of the comparison arm with 64-bit bit-vector / IEEE double cells and symbolic constants; z3 against 65-bit and IEEE relations; into_identifier MIR on <op><sign><1..18 symbolic digits> against the exact decimal value',
+    'symbolic execution of rustc MIR of the comparison arm with 64-bit bit-vector / IEEE double cells and symbolic constants; z3 against 65-bit and IEEE relations; into_identifier MIR on <op><sign><1..18 symbolic digits> against the exact decimal value; literal text of a condition constant (1..20 symbolic digits) through the real tokeniser MIR; int(float) beyond the i64 range: true implies the relation for the float itself',
     'All operator x constant x field-value triples at once (cells and constants are solver variables over the full i64/u64/f64 ranges); exact for same-kind comparisons and in-range casts, sound across kinds.',
     'parse::<i64> exact model on bounded strings; parse::<f64>/number to_string uninterpreted; Rust `as` = saturating'),
  'C10': ('model_checking', '3/C10',
-    'symbolic execution of rustc MIR of Object::find (default method + closures) on symbolic keys (totality) and on enumerated keys over a symbolic object graph, compared by z3 with a reference resolver; nested vs dotted rules on real solver MIR',
+    'symbolic execution of rustc MIR of Object::find (default method + closures) on symbolic keys (totality) and on enumerated keys over a symbolic object graph, compared by z3 with a reference resolver; nested vs dotted rules on real solver MIR; delegation: an Object used as a document answers every symbolic key through its own find() (MIR of both Document impls)',
     'No panic for any key within the byte bound; for every enumerated path up to depth D (with indices and malformed shapes) and every object graph within the bounds the returned value is exactly the addressed one or none; nested mapping == dotted key when intermediates are objects.',
     'Object::get on user objects = exact key lookup; Array::iter in order; usize::from_str exact'),
  'C11': ('other', '3/C11',
-    'symbolic execution of rustc MIR (dump with --features json) of every AsValue adapter on symbolic inputs; YAML and JSON Number adapters against one abstract number under serde\'s is_*/as_* contract; comparison kernel Int(x) vs UInt(x) by z3; solver-derived witness documents (per result value and document shape) evaluated natively as Object / serde_yaml / serde_json (concolic, labelled)',
+    'symbolic execution of rustc MIR (dump with --features json) of every AsValue adapter on symbolic inputs; YAML and JSON Number adapters against one abstract number under serde\'s is_*/as_* contract; comparison kernel Int(x) vs UInt(x) by z3; solver-derived witness documents (per result value and document shape) evaluated natively as Object / serde_yaml / serde_json (concolic, labelled); delegation unit shared with C10',
     'Adapters: primitives keep value and signedness for all values; YAML and JSON scalars / numbers map to the same Value with no reachable unreachable!(); Option/Vec/HashSet pass through; the comparison kernel does not distinguish Int(x>=0) from UInt(x). Representations: every witness derived from the real solver + Object::find MIR gets the same verdict in the three representations (not a forall claim).',
     'serde Number contract modelled; Value variant order read from the registry sources; map lookups and user Document impls outside the claim'),
  'C12': ('other', '3/C12',
@@ -54,7 +54,7 @@ C = {
     'Order independence and purity are decided over all documents / all explored paths; "prints the same" is decided by repeated concrete runs (labelled); thread schedules are not explored.',
     MODELS + '; hash-order variants collected by repetition'),
  'C13': ('model_checking', '3/C13',
-    'symbolic execution of rustc MIR of Rule::validate over symbolic example states (is_mapping, is_empty, matches, pairwise equality) with solve() as an arbitrary boolean per example; z3 against the specification of validate(); native replay through rules realising the model',
+    'symbolic execution of rustc MIR of Rule::validate over symbolic example states (is_mapping, is_empty, matches, pairwise equality) with solve() as an arbitrary boolean per example; z3 against the specification of validate(); native replay through rules realising the model; concrete example-shapes unit (tagged mappings, merge keys, non-mappings, several orders): validate() vs matches() per example',
     'All example lists with up to 3 positives and 3 negatives and all 2^(2k) example states: no panic, Ok(true) iff every example is right, Err(Validation) naming exactly the failing examples.',
     'solve() abstracted to a boolean per example (C02 covers its meaning); format!/Error::with modelled to keep which examples are mentioned'),
  'C14': ('other', '3/C14',
@@ -70,7 +70,7 @@ C = {
     'Every Document::find/Object::get reaching the user document on any feasible path of any template tree / optimiser output is for a written key; verdict terms depend only on requested cells.',
     MODELS),
  'C17': ('translation_validation', '3/C17',
-    'symbolic execution of rustc MIR on the original and on every permuted rule text (natively loaded); z3 decides truth inequality over a symbolic document',
+    'symbolic execution of rustc MIR on the original and on every permuted rule text (natively loaded); z3 decides truth inequality over a symbolic document; concrete wide-list unit shared with C08 (member order in lists of 65..130 members)',
     'All permutations (<= 4 operands) of every commutative position of the templates x all documents within the bounds.',
     MODELS),
 }
